@@ -77,15 +77,24 @@ impl Rec {
         v.append(&mut args);
         self.calls.push(Val::L(v));
     }
+    /// the failure the scripted outcome stands for: 1, 2 = EINVAL; 3 = an io::Error whose OS code is 0 (what
+    /// io::Error::last_os_error() gives when errno happens to be 0); 4 = an error without an OS code
+    fn failure(&self) -> Error {
+        match self.oc() {
+            3 => Error::ReqHandlerError(std::io::Error::from_raw_os_error(0)),
+            4 => Error::ReqHandlerError(std::io::Error::other("handler failed")),
+            _ => Error::ReqHandlerError(std::io::Error::from_raw_os_error(libc::EINVAL)),
+        }
+    }
     fn res(&self) -> Result<()> {
         if self.oc() == 0 {
             Ok(())
         } else {
-            Err(Error::ReqHandlerError(std::io::Error::from_raw_os_error(libc::EINVAL)))
+            Err(self.failure())
         }
     }
     fn fail<T>(&self) -> Result<T> {
-        Err(Error::ReqHandlerError(std::io::Error::from_raw_os_error(libc::EINVAL)))
+        Err(self.failure())
     }
     fn keep(&mut self, f: File) -> u64 {
         let id = self.fdt.lock().unwrap().id_of_fd(f.as_raw_fd());
